@@ -221,28 +221,44 @@ theorem tofStep_spec (s : TofS) (h : List TCall) (c : TCall) (hi : TofInv s h) :
 
 /-! ## TP -/
 
-/-- `Tp::step` while a pulse starts, restarts or runs. -/
-theorem tpStep_run (s : TpS) (c : TCall) (ha : ((!s.prevIn && c.inp) || s.active) = true) :
-    tpStep s c =
+/-- Proof device, NOT the code: a pulse step that restarts ET on every rising edge of IN, also while a
+pulse is running (this is what `Tp::step` did before commit b46c61d).  `tpStep_eq` expresses the code's
+step through it; its own lemmas need the guard "no rising edge while a pulse runs". -/
+def tpStepRetrig (s : TpS) (c : TCall) : TpS × TOut :=
+  let pt := normPt c.pt
+  let rising := !s.prevIn && c.inp
+  let active0 := rising || s.active
+  let et0 := if rising then 0 else s.et
+  let s2 : TpS :=
+    if active0 then
+      if et0 + c.dt ≥ pt then { s with active := false, et := pt }
+      else { s with active := true, et := et0 + c.dt }
+    else { s with active := false, et := et0 }
+  let s3 : TpS := { s2 with q := s2.active, prevIn := c.inp }
+  (s3, { q := s3.q, et := if s3.active then s3.et else 0 })
+
+/-- The auxiliary step while a pulse starts, restarts or runs. -/
+theorem tpStepRetrig_run (s : TpS) (c : TCall) (ha : ((!s.prevIn && c.inp) || s.active) = true) :
+    tpStepRetrig s c =
       (if (if (!s.prevIn && c.inp) = true then 0 else s.et) + c.dt ≥ normPt c.pt then
         ({ et := normPt c.pt, q := false, prevIn := c.inp, active := false }, { q := false, et := 0 })
       else
         ({ et := (if (!s.prevIn && c.inp) = true then 0 else s.et) + c.dt, q := true, prevIn := c.inp,
            active := true },
          { q := true, et := (if (!s.prevIn && c.inp) = true then 0 else s.et) + c.dt })) := by
-  simp only [tpStep, ha, if_true]
+  simp only [tpStepRetrig, ha, if_true]
   by_cases hge : (if (!s.prevIn && c.inp) = true then 0 else s.et) + c.dt ≥ normPt c.pt
   · simp only [hge, if_true, Bool.false_eq_true, if_false]
   · simp only [hge, if_false, if_true]
 
-/-- `Tp::step` with no pulse and no rising edge. -/
-theorem tpStep_idle (s : TpS) (c : TCall) (ha : ((!s.prevIn && c.inp) || s.active) = false) :
-    tpStep s c = ({ et := s.et, q := false, prevIn := c.inp, active := false }, { q := false, et := 0 }) := by
+/-- The auxiliary step with no pulse and no rising edge. -/
+theorem tpStepRetrig_idle (s : TpS) (c : TCall) (ha : ((!s.prevIn && c.inp) || s.active) = false) :
+    tpStepRetrig s c = ({ et := s.et, q := false, prevIn := c.inp, active := false }, { q := false, et := 0 }) := by
   have hr : (!s.prevIn && c.inp) = false := by
     cases h1 : (!s.prevIn && c.inp) <;> simp [h1] at ha ⊢
   have hact : s.active = false := by
     cases h1 : s.active <;> simp [h1] at ha ⊢
-  simp only [tpStep, hr, hact, Bool.or_self, Bool.false_eq_true, if_false]
+  simp only [tpStepRetrig, hr, hact, Bool.or_self, Bool.false_eq_true, if_false]
 
 theorem lastIn_cons (c : TCall) (h : List TCall) : Spec.lastIn (c :: h) = c.inp := rfl
 
@@ -253,9 +269,9 @@ def TpInv (s : TpS) (h : List TCall) : Prop :=
 theorem tpInv_init : TpInv {} [] := by
   simp [TpInv, Spec.lastIn, Spec.tpRunning]
 
-theorem tpStep_spec (s : TpS) (h : List TCall) (c : TCall) (hi : TpInv s h)
+theorem tpStepRetrig_spec (s : TpS) (h : List TCall) (c : TCall) (hi : TpInv s h)
     (hg : ¬ (c.inp = true ∧ Spec.lastIn h = false ∧ (Spec.tpRunning h).isSome = true)) :
-    TpInv (tpStep s c).1 (c :: h) ∧ (tpStep s c).2 = Spec.tpR (c :: h) := by
+    TpInv (tpStepRetrig s c).1 (c :: h) ∧ (tpStepRetrig s c).2 = Spec.tpR (c :: h) := by
   obtain ⟨hp, ht⟩ := hi
   by_cases hact : s.active = true
   · -- a pulse is running; the guard excludes a rising edge
@@ -272,7 +288,7 @@ theorem tpStep_spec (s : TpS) (h : List TCall) (c : TCall) (hi : TpInv s h)
           refine ⟨hin, ?_, ?_⟩
           · rw [← hp]; exact hpi
           · rw [ht]; rfl
-    rw [tpStep_run s c (by simp [hact])]
+    rw [tpStepRetrig_run s c (by simp [hact])]
     simp only [hr, Bool.false_eq_true, if_false]
     simp only [TpInv, Spec.tpR, Spec.tpRunning, lastIn_cons, ht]
     split <;> simp [*]
@@ -282,36 +298,58 @@ theorem tpStep_spec (s : TpS) (h : List TCall) (c : TCall) (hi : TpInv s h)
     · -- a pulse starts
       have hr' : (c.inp && !Spec.lastIn h) = true := by
         rw [← hp]; simpa [Bool.and_comm] using hr
-      rw [tpStep_run s c (by simp [hr])]
+      rw [tpStepRetrig_run s c (by simp [hr])]
       simp only [hr, if_true, Int.zero_add]
       simp only [TpInv, Spec.tpR, Spec.tpRunning, lastIn_cons, ht, hr', if_true]
       split <;> simp [*]
     · have hr0 : (!s.prevIn && c.inp) = false := by simpa using hr
       have hr' : (c.inp && !Spec.lastIn h) = false := by
         rw [← hp]; simpa [Bool.and_comm] using hr0
-      rw [tpStep_idle s c (by simp [hr0, hact'])]
+      rw [tpStepRetrig_idle s c (by simp [hr0, hact'])]
       simp [TpInv, Spec.tpR, Spec.tpRunning, lastIn_cons, ht, hr']
 
 /-- While a pulse is running the reported ET is the accumulator. -/
-theorem tpStep_active_et (s : TpS) (c : TCall) (h : (tpStep s c).1.active = true) :
-    (tpStep s c).2.et = (tpStep s c).1.et := by
+theorem tpStepRetrig_active_et (s : TpS) (c : TCall) (h : (tpStepRetrig s c).1.active = true) :
+    (tpStepRetrig s c).2.et = (tpStepRetrig s c).1.et := by
   by_cases ha : ((!s.prevIn && c.inp) || s.active) = true
-  · rw [tpStep_run s c ha] at h ⊢
+  · rw [tpStepRetrig_run s c ha] at h ⊢
     by_cases hge : (if (!s.prevIn && c.inp) = true then 0 else s.et) + c.dt ≥ normPt c.pt
     · simp only [hge, if_true] at h
       simp at h
     · simp only [hge, if_false]
   · have ha' : ((!s.prevIn && c.inp) || s.active) = false := by simpa using ha
-    rw [tpStep_idle s c ha'] at h
+    rw [tpStepRetrig_idle s c ha'] at h
     simp at h
 
-theorem retriggered_cons (c : TCall) (h : List TCall) (hg : Spec.retriggered (c :: h) = false) :
-    ¬ (c.inp = true ∧ Spec.lastIn h = false ∧ (Spec.tpRunning h).isSome = true) ∧
-      Spec.retriggered h = false := by
-  simp only [Spec.retriggered, Bool.or_eq_false_iff] at hg
-  refine ⟨?_, hg.2⟩
-  rintro ⟨h1, h2, h3⟩
-  simp [h1, h2, h3] at hg
+/-- `Tp::step` ignores IN while a pulse runs: it is the auxiliary step on a state that remembers
+"IN was TRUE" whenever a pulse is active. -/
+theorem tpStep_eq (s : TpS) (c : TCall) :
+    tpStep s c = tpStepRetrig { s with prevIn := s.prevIn || s.active } c := by
+  cases hp : s.prevIn <;> cases ha : s.active <;> cases hc : c.inp <;>
+    simp [tpStep, tpStepRetrig, hp, ha, hc] <;> split <;> simp
+
+theorem tpStep_spec (s : TpS) (h : List TCall) (c : TCall) (hi : TpInv s h) :
+    TpInv (tpStep s c).1 (c :: h) ∧ (tpStep s c).2 = Spec.tpR (c :: h) := by
+  by_cases hact : s.active = true
+  · obtain ⟨hp, ht⟩ := hi
+    simp only [hact, if_true] at ht
+    rw [tpStep_eq, tpStepRetrig_run _ c (by simp [hact])]
+    simp only [hact, Bool.or_true, Bool.not_true, Bool.false_and, Bool.false_eq_true, if_false]
+    simp only [TpInv, Spec.tpR, Spec.tpRunning, lastIn_cons, ht]
+    split <;> simp [*]
+  · have hact' : s.active = false := by simpa using hact
+    have hs : ({ s with prevIn := s.prevIn || s.active } : TpS) = s := by
+      cases s; simp_all
+    rw [tpStep_eq, hs]
+    refine tpStepRetrig_spec s h c hi ?_
+    rintro ⟨_, _, h3⟩
+    rw [hi.2, hact'] at h3
+    simp at h3
+
+theorem tpStep_active_et (s : TpS) (c : TCall) (h : (tpStep s c).1.active = true) :
+    (tpStep s c).2.et = (tpStep s c).1.et := by
+  rw [tpStep_eq] at h ⊢
+  exact tpStepRetrig_active_et _ c h
 
 /-! ## The `exec_*` route of the timers -/
 
@@ -456,13 +494,10 @@ def TpXInv (i : TimerInst) (hx : List XCall) : Prop :=
   i.last = Spec.lastNow hx ∧
     TpInv { et := i.et, q := i.q, prevIn := i.prevIn, active := i.active } (Spec.toT hx)
 
-theorem execTp_spec (i : TimerInst) (hx : List XCall) (c : XCall) (hi : TpXInv i hx)
-    (hg : Spec.retriggered (Spec.toT (c :: hx)) = false) :
+theorem execTp_spec (i : TimerInst) (hx : List XCall) (c : XCall) (hi : TpXInv i hx) :
     TpXInv (execTp i c).1 (c :: hx) ∧ (execTp i c).2 = Spec.tpR (Spec.toT (c :: hx)) := by
   obtain ⟨hl, hinv⟩ := hi
-  rw [toT_cons, ← hl] at hg
-  obtain ⟨hg1, _⟩ := retriggered_cons _ _ hg
-  obtain ⟨h1, h2⟩ := tpStep_spec _ _ (c.toT i.last) hinv hg1
+  obtain ⟨h1, h2⟩ := tpStep_spec _ _ (c.toT i.last) hinv
   unfold TpXInv
   rw [toT_cons, ← hl]
   refine ⟨⟨rfl, ?_⟩, h2⟩
@@ -471,7 +506,8 @@ theorem execTp_spec (i : TimerInst) (hx : List XCall) (c : XCall) (hi : TpXInv i
   refine ⟨h1a, ?_⟩
   rw [h1b]
   simp only
-  by_cases ht : (tpStep { et := i.et, q := i.q, prevIn := i.prevIn, active := i.active } (c.toT i.last)).1.active = true
+  by_cases ht : (tpStep { et := i.et, q := i.q, prevIn := i.prevIn, active := i.active }
+      (c.toT i.last)).1.active = true
   · simp only [ht, if_true]
     rw [tpStep_active_et _ _ ht]
   · simp [ht]
@@ -518,12 +554,12 @@ theorem tofStep_bounds (s : TofS) (c : TCall) (h0 : 0 ≤ s.et) (hd : 0 ≤ c.dt
       simp only
       omega
 
-theorem tpStep_bounds (s : TpS) (c : TCall) (h0 : 0 ≤ s.et) (hd : 0 ≤ c.dt) :
-    0 ≤ (tpStep s c).1.et ∧ (tpStep s c).1.et ≤ s.et + c.dt ∧
-      0 ≤ (tpStep s c).2.et ∧ (tpStep s c).2.et ≤ (tpStep s c).1.et := by
+theorem tpStepRetrig_bounds (s : TpS) (c : TCall) (h0 : 0 ≤ s.et) (hd : 0 ≤ c.dt) :
+    0 ≤ (tpStepRetrig s c).1.et ∧ (tpStepRetrig s c).1.et ≤ s.et + c.dt ∧
+      0 ≤ (tpStepRetrig s c).2.et ∧ (tpStepRetrig s c).2.et ≤ (tpStepRetrig s c).1.et := by
   have hp := normPt_nonneg c.pt
   by_cases ha : ((!s.prevIn && c.inp) || s.active) = true
-  · rw [tpStep_run s c ha]
+  · rw [tpStepRetrig_run s c ha]
     have he : 0 ≤ (if (!s.prevIn && c.inp) = true then 0 else s.et) ∧
         (if (!s.prevIn && c.inp) = true then 0 else s.et) ≤ s.et := by
       split <;> omega
@@ -532,9 +568,15 @@ theorem tpStep_bounds (s : TpS) (c : TCall) (h0 : 0 ≤ s.et) (hd : 0 ≤ c.dt) 
     · simp only [hge, if_true]; refine ⟨?_, ?_, ?_, ?_⟩ <;> first | trivial | omega
     · simp only [hge, if_false]; refine ⟨?_, ?_, ?_, ?_⟩ <;> first | trivial | omega
   · have ha' : ((!s.prevIn && c.inp) || s.active) = false := by simpa using ha
-    rw [tpStep_idle s c ha']
+    rw [tpStepRetrig_idle s c ha']
     simp only
     omega
+
+theorem tpStep_bounds (s : TpS) (c : TCall) (h0 : 0 ≤ s.et) (hd : 0 ≤ c.dt) :
+    0 ≤ (tpStep s c).1.et ∧ (tpStep s c).1.et ≤ s.et + c.dt ∧
+      0 ≤ (tpStep s c).2.et ∧ (tpStep s c).2.et ≤ (tpStep s c).1.et := by
+  rw [tpStep_eq]
+  exact tpStepRetrig_bounds { s with prevIn := s.prevIn || s.active } c h0 hd
 
 theorem inI64_of (x : Int) (h0 : 0 ≤ x) (h1 : x ≤ i64Max) : inI64 x = true := by
   unfold inI64 i64Min i64Max
@@ -554,7 +596,7 @@ theorem tofOvf_false (s : TofS) (c : TCall) (h0 : 0 ≤ s.et) (hd : 0 ≤ c.dt)
 
 theorem tpOvf_false (s : TpS) (c : TCall) (h0 : 0 ≤ s.et) (hd : 0 ≤ c.dt)
     (hm : s.et + c.dt ≤ i64Max) : tpOvf s c = false := by
-  have : inI64 ((if (!s.prevIn && c.inp) = true then 0 else s.et) + c.dt) = true := by
+  have : inI64 ((if (!s.prevIn && c.inp && !s.active) = true then 0 else s.et) + c.dt) = true := by
     apply inI64_of <;> split <;> omega
   simp only [tpOvf, this]; simp
 
@@ -830,13 +872,9 @@ theorem tofRun_inv (tr : List TCall) : TofInv (tofRun tr) tr.reverse :=
   foldl_inv0 (fun s c => (tofStep s c).1) TofInv {} tofInv_init
     (fun s h c hi => (tofStep_spec s h c hi).1) tr
 
-theorem tpRun_inv (tr : List TCall) :
-    Spec.retriggered tr.reverse = false → TpInv (tpRun tr) tr.reverse :=
-  foldl_inv0 (fun s c => (tpStep s c).1) (fun s h => Spec.retriggered h = false → TpInv s h) {}
-    (fun _ => tpInv_init)
-    (fun s h c hi hg => by
-      obtain ⟨g1, g2⟩ := retriggered_cons c h hg
-      exact (tpStep_spec s h c (hi g2) g1).1) tr
+theorem tpRun_inv (tr : List TCall) : TpInv (tpRun tr) tr.reverse :=
+  foldl_inv0 (fun s c => (tpStep s c).1) TpInv {} tpInv_init
+    (fun s h c hi => (tpStep_spec s h c hi).1) tr
 
 theorem execTonRun_inv (tr : List XCall) : TonXInv (execTonRun tr) tr.reverse :=
   foldl_inv0 (fun i c => (execTon i c).1) TonXInv {} tonXInv_init
@@ -846,17 +884,9 @@ theorem execTofRun_inv (tr : List XCall) : TofXInv (execTofRun tr) tr.reverse :=
   foldl_inv0 (fun i c => (execTof i c).1) TofXInv {} tofXInv_init
     (fun i h c hi => (execTof_spec i h c hi).1) tr
 
-theorem retriggered_toT_tail (c : XCall) (hx : List XCall)
-    (hg : Spec.retriggered (Spec.toT (c :: hx)) = false) : Spec.retriggered (Spec.toT hx) = false := by
-  rw [toT_cons] at hg
-  exact (retriggered_cons _ _ hg).2
-
-theorem execTpRun_inv (tr : List XCall) :
-    Spec.retriggered (Spec.toT tr.reverse) = false → TpXInv (execTpRun tr) tr.reverse :=
-  foldl_inv0 (fun i c => (execTp i c).1)
-    (fun i h => Spec.retriggered (Spec.toT h) = false → TpXInv i h) {}
-    (fun _ => tpXInv_init)
-    (fun i h c hi hg => (execTp_spec i h c (hi (retriggered_toT_tail c h hg)) hg).1) tr
+theorem execTpRun_inv (tr : List XCall) : TpXInv (execTpRun tr) tr.reverse :=
+  foldl_inv0 (fun i c => (execTp i c).1) TpXInv {} tpXInv_init
+    (fun i h c hi => (execTp_spec i h c hi).1) tr
 
 theorem ctuRun_inv (k : IntKind) (hk : 0 ≤ k.hi) (tr : List CtuCall) :
     CtuInv k (ctuRun k tr) tr.reverse :=
@@ -1106,71 +1136,20 @@ theorem tof_mono_core (s : TofS) (c : TCall) (ht : s.timing = true) (hp : s.prev
 theorem tpStep_prevIn (s : TpS) (c : TCall) : (tpStep s c).1.prevIn = c.inp := by
   simp [tpStep]
 
-theorem tp_mono_core (s : TpS) (c : TCall) (ha : s.active = true) (hnr : (!s.prevIn && c.inp) = false)
-    (hd : 0 ≤ c.dt) (h2 : (tpStep s c).1.active = true) : s.et ≤ (tpStep s c).2.et := by
-  rw [tpStep_run s c (by simp [ha])] at h2 ⊢
+theorem tpRetrig_mono_core (s : TpS) (c : TCall) (ha : s.active = true)
+    (hnr : (!s.prevIn && c.inp) = false) (hd : 0 ≤ c.dt) (h2 : (tpStepRetrig s c).1.active = true) :
+    s.et ≤ (tpStepRetrig s c).2.et := by
+  rw [tpStepRetrig_run s c (by simp [ha])] at h2 ⊢
   simp only [hnr, Bool.false_eq_true, if_false] at h2 ⊢
   by_cases hge : s.et + c.dt ≥ normPt c.pt
   · simp only [hge, if_true] at h2
     simp at h2
   · simp only [hge, if_false]; omega
 
-/-! ## The candidate fix of C04-tp-retrigger -/
-
-/-- The patched step ignores IN while a pulse runs: it is the original step on a state that
-remembers "IN was TRUE" whenever a pulse is active. -/
-theorem tpStepFixed_eq (s : TpS) (c : TCall) :
-    tpStepFixed s c = tpStep { s with prevIn := s.prevIn || s.active } c := by
-  cases hp : s.prevIn <;> cases ha : s.active <;> cases hc : c.inp <;>
-    simp [tpStepFixed, tpStep, hp, ha, hc] <;> split <;> simp
-
-theorem tpStepFixed_spec (s : TpS) (h : List TCall) (c : TCall) (hi : TpInv s h) :
-    TpInv (tpStepFixed s c).1 (c :: h) ∧ (tpStepFixed s c).2 = Spec.tpR (c :: h) := by
-  by_cases hact : s.active = true
-  · obtain ⟨hp, ht⟩ := hi
-    simp only [hact, if_true] at ht
-    rw [tpStepFixed_eq, tpStep_run _ c (by simp [hact])]
-    simp only [hact, Bool.or_true, Bool.not_true, Bool.false_and, Bool.false_eq_true, if_false]
-    simp only [TpInv, Spec.tpR, Spec.tpRunning, lastIn_cons, ht]
-    split <;> simp [*]
-  · have hact' : s.active = false := by simpa using hact
-    have hs : ({ s with prevIn := s.prevIn || s.active } : TpS) = s := by
-      cases s; simp_all
-    rw [tpStepFixed_eq, hs]
-    refine tpStep_spec s h c hi ?_
-    rintro ⟨_, _, h3⟩
-    rw [hi.2, hact'] at h3
-    simp at h3
-
-theorem tpRunFixed_inv (tr : List TCall) : TpInv (tpRunFixed tr) tr.reverse :=
-  foldl_inv0 (fun s c => (tpStepFixed s c).1) TpInv {} tpInv_init
-    (fun s h c hi => (tpStepFixed_spec s h c hi).1) tr
-
-theorem tpStepFixed_active_et (s : TpS) (c : TCall) (h : (tpStepFixed s c).1.active = true) :
-    (tpStepFixed s c).2.et = (tpStepFixed s c).1.et := by
-  rw [tpStepFixed_eq] at h ⊢
-  exact tpStep_active_et _ c h
-
-theorem execTpFixed_spec (i : TimerInst) (hx : List XCall) (c : XCall) (hi : TpXInv i hx) :
-    TpXInv (execTpFixed i c).1 (c :: hx) ∧ (execTpFixed i c).2 = Spec.tpR (Spec.toT (c :: hx)) := by
-  obtain ⟨hl, hinv⟩ := hi
-  obtain ⟨h1, h2⟩ := tpStepFixed_spec _ _ (c.toT i.last) hinv
-  unfold TpXInv
-  rw [toT_cons, ← hl]
-  refine ⟨⟨rfl, ?_⟩, h2⟩
-  simp only [execTpFixed]
-  obtain ⟨h1a, h1b⟩ := h1
-  refine ⟨h1a, ?_⟩
-  rw [h1b]
-  simp only
-  by_cases ht : (tpStepFixed { et := i.et, q := i.q, prevIn := i.prevIn, active := i.active }
-      (c.toT i.last)).1.active = true
-  · simp only [ht, if_true]
-    rw [tpStepFixed_active_et _ _ ht]
-  · simp [ht]
-
-theorem execTpRunFixed_inv (tr : List XCall) : TpXInv (execTpRunFixed tr) tr.reverse :=
-  foldl_inv0 (fun i c => (execTpFixed i c).1) TpXInv {} tpXInv_init
-    (fun i h c hi => (execTpFixed_spec i h c hi).1) tr
+/-- While a pulse keeps running, the reported ET does not fall below the accumulator — whatever IN does. -/
+theorem tp_mono_core (s : TpS) (c : TCall) (ha : s.active = true) (hd : 0 ≤ c.dt)
+    (h2 : (tpStep s c).1.active = true) : s.et ≤ (tpStep s c).2.et := by
+  rw [tpStep_eq] at h2 ⊢
+  exact tpRetrig_mono_core { s with prevIn := s.prevIn || s.active } c ha (by simp [ha]) hd h2
 
 end TrustVerif.C04
